@@ -107,11 +107,9 @@ func (mp MerklePath) GetKey(i uint64) ([]byte, error) {
 	if i >= uint64(len(mp.KeyPath)) {
 		return nil, fmt.Errorf("index out of range. %d (index) >= %d (len)", i, len(mp.KeyPath))
 	}
-	key, err := url.PathUnescape(mp.KeyPath[i])
-	if err != nil {
-		return nil, err
-	}
-	return []byte(key), nil
+	// key path elements are stored unescaped (String escapes them for display only): unescaping here would
+	// make distinct identifiers such as "%63hain" and "chain" address the same store key
+	return []byte(mp.KeyPath[i]), nil
 }
 
 // Empty returns true if the path is empty
